@@ -146,8 +146,22 @@ impl Meta {
     pub fn write(page_pool: &PagePool, fd: &File, meta: &Meta) -> std::io::Result<()> {
         let mut page = page_pool.alloc_fat_page();
         meta.encode_to(&mut page.as_mut()[..META_SIZE]);
+        #[cfg(feature = "verif")]
+        let _vg = {
+            use std::os::fd::AsRawFd as _;
+            crate::verif::pre("meta_write", crate::verif::Kind::Write, fd.as_raw_fd(), 0, &page[..])?
+        };
         fd.write_all_at(&page[..], 0)?;
+        #[cfg(feature = "verif")]
+        _vg.done();
+        #[cfg(feature = "verif")]
+        let _vg = {
+            use std::os::fd::AsRawFd as _;
+            crate::verif::pre("meta_fsync", crate::verif::Kind::Fsync, fd.as_raw_fd(), 0, &[])?
+        };
         fd.sync_all()?;
+        #[cfg(feature = "verif")]
+        _vg.done();
         Ok(())
     }
 }
